@@ -221,7 +221,7 @@ class SimChain:
                 taken.add(txid)
         return take
 
-    def fund(self, outputs, fee=1000, sequence=0xffffffff):
+    def fund(self, outputs, fee=1000, sequence=0xffffffff, version=2, locktime=0):
         """Pay outputs [(script, value)] from the faucet with a real, signed P2WPKH spend (mempool)."""
         need = sum(v for _, v in outputs) + fee
         picked, tot = [], 0
@@ -233,13 +233,13 @@ class SimChain:
                     break
         if tot < need:
             self.mine()
-            return self.fund(outputs, fee, sequence)
+            return self.fund(outputs, fee, sequence, version, locktime)
         vin = [RefIn(prev_txid=bytes.fromhex(op[0])[::-1], vout=op[1], script_sig=b'', sequence=sequence, witness=[])
                for op, _ in picked]
         vout = [RefOut(value=v, script_pubkey=s) for s, v in outputs]
         if tot - need > 0:
             vout.append(RefOut(value=tot - need, script_pubkey=self.faucet_script))
-        tx = RefTx(version=2, vin=vin, vout=vout, locktime=0, segwit=True)
+        tx = RefTx(version=version, vin=vin, vout=vout, locktime=locktime, segwit=True)
         code = rscript.p2pkh_script(hashes.hash160(self.faucet_pub))
         for i, (op, val) in enumerate(picked):
             z = int.from_bytes(rsighash.bip143_sighash(tx, i, code, val, 1), 'big')
